@@ -329,6 +329,16 @@ pub fn run(ctx: &Ctx, st: &mut Stats) {
             st.eval(&C::ab(K::OraVsTs, a, 0), check);
         }
     });
+    cold_threads(st, "history: first call on a fresh thread (sentinel-like operands: -1, 0, 1 ...)", {
+        let mut v = vec![];
+        for b in [-1i64, 0, 1, -2, 2, 999_999, -999_999, 1_000_000, -1_000_000, i32::MAX as i64, i32::MIN as i64] {
+            v.push(C::ab(K::DateDt, 0, b));
+            v.push(C::ab(K::DateDt, 10_957, b));
+            v.push(C::ab(K::OraDt, 0, b));
+            v.push(C::ab(K::OraDt, 946_684_800_000_000, b));
+        }
+        v
+    }, check);
     let n = ctx.tier.pick(1_000, 2_000_000, ctx.big(30_000_000, 300_000_000));
     ctx.par(st, "random: pairs for comparisons / differences / interval arithmetic", false, 0, n, |st, _, rng| {
         let a = rng.range_i64(TS_MIN, TS_MAX);
